@@ -38,6 +38,8 @@ pub struct ClientSim {
     pub srv_closed: bool,
     /// an injected read error (the server answers those with a 500)
     pub recv_err_injected: bool,
+    /// the payload limit in force when this client was accepted (None = not accepted yet)
+    pub limit: Option<usize>,
 }
 
 pub struct Held {
@@ -72,6 +74,8 @@ pub struct World {
     pub armed_recv: BTreeMap<RawFd, RecvFault>,
     pub armed_write: BTreeMap<RawFd, WriteFault>,
     pub faults_taken: usize,
+    /// the server's current payload limit (applies to connections accepted from now on)
+    pub cur_limit: usize,
 }
 
 pub fn open_fds() -> BTreeSet<RawFd> {
@@ -196,6 +200,7 @@ impl World {
             armed_recv: BTreeMap::new(),
             armed_write: BTreeMap::new(),
             faults_taken: 0,
+            cur_limit: limit.unwrap_or(51200),
         };
         w.emit(rec, "srv new".into(), "ok".into());
         if let Some(l) = limit {
@@ -229,6 +234,7 @@ impl World {
     }
 
     pub fn set_limit(&mut self, rec: &mut Rec, l: usize) {
+        self.cur_limit = l;
         self.server.as_mut().unwrap().set_payload_max_size(l);
         self.emit(rec, format!("srv limit {}", l), "ok".into());
     }
@@ -251,6 +257,7 @@ impl World {
             write_failed: false,
             srv_closed: false,
             recv_err_injected: false,
+            limit: None,
         });
         self.backlog.push_back(i);
         self.note(rec, &format!("client {} connect", i));
@@ -543,6 +550,7 @@ impl World {
                 if let Some(fd) = new_fds.first() {
                     self.clients[i].srv_fd = Some(*fd);
                     self.clients[i].accepted = true;
+                    self.clients[i].limit = Some(self.cur_limit);
                     self.by_fd.insert(*fd, i);
                     accepted_fd = Some(*fd);
                 } else if killed_now && !toks.iter().take_while(|t| !matches!(t, Ok(s) if s == "K")).any(|t| matches!(t, Ok(s) if s == "L?")) {
